@@ -1,9 +1,9 @@
 SPECIFICATION Spec
 CONSTANTS
-  Kind = {"send", "data", "pour", "fail", "vest", "stake", "burn", "gov2_globals", "gov2_miner", "gov2_storage", "gov2_vesting", "gov2_zcn", "gov2_faucet", "govok", "govpart_miner", "govok_miner", "govpart_storage", "govok_storage"}
+  Kind = {"send", "data", "pour", "fail", "vest", "stake", "burn", "gov2_globals", "gov2_miner", "gov2_storage", "gov2_vesting", "gov2_zcn", "gov2_faucet", "govok", "govpart_miner", "govok_miner", "govpart_storage", "govcommit_storage"}
   MultiBad = {"gov2_globals", "gov2_miner", "gov2_storage", "gov2_vesting", "gov2_zcn", "gov2_faucet"}
   PartFail = {"govpart_miner", "govpart_storage"}
-  Saver = {"govok_miner", "govok_storage"}
+  Saver = {"govok_miner", "govcommit_storage"}
   ObjOf <- MCObjOf
   Env <- MCEnv
   MaxLen = 2
